@@ -92,7 +92,8 @@ func init() {
 
 func c16Tcp(e *Env) {
 	t := e.T
-	cfg := srvCfg{prop: "C16", nConns: t.Range(1, 2), nDialled: t.Draw(2), msgsPer: [2]int{1, 6}, parkPct: 15, answerPct: 100, wideHdr: true, deferPct: 35}
+	cfg := srvCfg{prop: "C16", nConns: t.Range(1, 2), nDialled: t.Draw(2), msgsPer: [2]int{1, 6}, parkPct: 15, answerPct: 100, wideHdr: true, deferPct: 35,
+		bareDict: t.Chance(1, 3)}
 	newSrvWorld(e, cfg).run()
 }
 
